@@ -115,6 +115,19 @@ func xformFacts(f *facts) {
 		})
 	}
 	f.strs["xform_drop_rule"] = rules
+	{
+		var ce ast.Expr
+		if fd := fn("transform/tdrop/tdrop.go", "Transform", "dropTransform"); fd != nil {
+			inspect(fd.Body, func(n ast.Node) bool {
+				if is, ok := n.(*ast.IfStmt); ok && strings.Contains(src(is.Body), "tf.totalDropped++") && ce == nil {
+					ce = is.Cond
+				}
+				return true
+			})
+		}
+		f.cond("gen_drop_rule", "tdrop.go Transform: the sampled-drop decision", ce, []string{"matched", "dropped", "rate"},
+			map[string]string{"tf.totalMatched": "matched", "tf.totalDropped": "dropped", "tf.targetRate": "rate"})
+	}
 	f.note["xform_drop_counter_writes"] = "tdrop.go: every statement that writes totalMatched / totalDropped in the package, in source order"
 	var writes []string
 	if file := parse("transform/tdrop/tdrop.go"); file != nil {
@@ -176,6 +189,12 @@ func xformFacts(f *facts) {
 
 // ---- C11: packer ----
 func packFacts(f *facts) {
+	for _, k := range [][2]string{{"ff", "output/fluentdforward/chunk.go"}, {"dd", "output/datadog/chunk.go"}} {
+		f.boolFunc("gen_can_append_"+k[0], k[1]+" intermediateChunk.CanAppendData", fn(k[1], "CanAppendData", "intermediateChunk"),
+			[]string{"maxRecords", "numRecords", "maxBytes", "numBytes", "dataLength"},
+			map[string]string{"chunk.maxRecords": "maxRecords", "chunk.numRecords": "numRecords", "chunk.maxBytes": "maxBytes",
+				"chunk.numBytes": "numBytes", "dataLength": "dataLength", `len("]")`: "(1 : Int)"})
+	}
 	f.note["pack_id_format"] = "chunkidgen.go Generate: the Sprintf format (without the suffix)"
 	f.note["pack_id_epoch_compare"] = "chunkidgen.go Generate: condition under which the epoch is advanced and the sequence reset"
 	var fmts, conds []string
@@ -511,6 +530,16 @@ func frameFacts(f *facts) {
 		oc = append(oc, "processBuffer ends with "+src(fd.Body.List[len(fd.Body.List)-1]))
 	}
 	f.strs["frame_overflow_condition"] = oc
+	{
+		var ce ast.Expr
+		if fd := fn("input/tcplistener/multilinereader.go", "checkOverflow", "multiLineReader"); fd != nil && fd.Body != nil && len(fd.Body.List) > 0 {
+			if is, ok := fd.Body.List[0].(*ast.IfStmt); ok && endsInReturn(is.Body) {
+				ce = is.Cond
+			}
+		}
+		f.cond("gen_room_rule", "multilinereader.go checkOverflow: the condition under which no overflow handling happens", ce, []string{"cap", "offsetAppend", "soft"},
+			map[string]string{"len(mlr.buffer)": "cap", "mlr.offsetAppend": "offsetAppend", "mlr.softRecordLimit": "soft"})
+	}
 	f.note["frame_soft_is_max_record"] = "tcplinelistener.go runConnection: newMultiLineReader(…, defs.ListenerLineBufferSize, defs.InputLogMaxRecordBytes, …)"
 	f.bool["frame_soft_is_max_record"] = nil
 	if fd := fn("input/tcplistener/tcplinelistener.go", "runConnection", "tcpLineListener"); fd != nil {
@@ -882,6 +911,7 @@ func bufferFacts(f *facts) {
 	f.note["buffer_accept_select"] = "bufferer.Accept: the cases of its only select (communication clause; what the default branch calls)"
 	f.note["buffer_spill_condition"] = "bufferer.Accept: condition of the unload branch"
 	var sel, spill []string
+	var spillExpr ast.Expr
 	if fd := fn(buf, "Accept", "bufferer"); fd != nil {
 		nsel := 0
 		inspect(fd.Body, func(n ast.Node) bool {
@@ -906,6 +936,9 @@ func bufferFacts(f *facts) {
 			case *ast.IfStmt:
 				if strings.Contains(src(x.Body), "UnloadOrDropChunk") {
 					spill = append(spill, src(x.Cond))
+					if spillExpr == nil {
+						spillExpr = x.Cond
+					}
 				}
 			case *ast.SendStmt:
 			case *ast.UnaryExpr:
@@ -921,6 +954,8 @@ func bufferFacts(f *facts) {
 	}
 	f.strs["buffer_accept_select"] = sel
 	f.strs["buffer_spill_condition"] = spill
+	f.cond("gen_spill_rule", "bufferer.Accept: the condition under which a new chunk is unloaded", spillExpr, []string{"window", "memCap"},
+		map[string]string{"buf.feeder.NumOutput()": "window", "defs.BufferMaxNumChunksInMemory": "memCap"})
 	f.note["buffer_start_calls"] = "bufferer.Start: statements in order"
 	var start []string
 	if fd := fn(buf, "Start", "bufferer"); fd != nil {
@@ -944,6 +979,7 @@ func bufferFacts(f *facts) {
 	f.strs["buffer_channel_caps"] = caps
 	f.note["buffer_quota_condition"] = "chunkOperator.UnloadChunk: the condition that refuses the write (must precede WriteFileAt)"
 	var quota []string
+	var quotaExpr ast.Expr
 	if fd := fn(op, "UnloadChunk", "chunkOperator"); fd != nil {
 		wrote := false
 		inspect(fd.Body, func(n ast.Node) bool {
@@ -954,6 +990,9 @@ func bufferFacts(f *facts) {
 				}
 			case *ast.IfStmt:
 				if strings.Contains(src(x.Cond), "maxTotalBytes") {
+					if quotaExpr == nil && !wrote && endsInReturn(x.Body) {
+						quotaExpr = x.Cond
+					}
 					t := src(x.Cond)
 					if wrote {
 						t = "after-write: " + t
@@ -968,6 +1007,8 @@ func bufferFacts(f *facts) {
 		})
 	}
 	f.strs["buffer_quota_condition"] = quota
+	f.cond("gen_quota_rule", "chunkOperator.UnloadChunk: the condition that refuses the write", quotaExpr, []string{"gauge", "size", "limit"},
+		map[string]string{"op.metrics.persistentChunkBytes.Get()": "gauge", "len(chunkRef.Data)": "size", "op.maxTotalBytes": "limit"})
 	f.note["buffer_leftover_calls"] = "chunkManager.OnChunkLeftover: how the chunk is saved (call whose result guards the early return)"
 	var left []string
 	if fd := fn(man, "OnChunkLeftover", "chunkManager"); fd != nil {
@@ -1596,6 +1637,19 @@ func flushFacts(f *facts) {
 		})
 	}
 	f.strs["flush_wrapper_read"] = wr
+	{
+		var ce ast.Expr
+		if fd := fn("util/netconnwrapper.go", "Read", "NetConnWrapper"); fd != nil {
+			inspect(fd.Body, func(n ast.Node) bool {
+				if is, ok := n.(*ast.IfStmt); ok && strings.Contains(src(is.Body), "SetReadDeadline") && strings.Contains(src(is.Cond), "readDeadline") && ce == nil {
+					ce = is.Cond
+				}
+				return true
+			})
+		}
+		f.cond("gen_renew_rule", "NetConnWrapper.Read: the condition under which the read deadline is renewed", ce, []string{"deadline", "now", "m"},
+			map[string]string{"cw.readDeadline": "deadline", "now": "now", "cw.readTimeoutMin": "m"})
+	}
 	f.note["flush_wrapper_max"] = "WrapNetConn: readTimeoutMin / readTimeoutMax initialisers"
 	var mx []string
 	if fd := fn("util/netconnwrapper.go", "WrapNetConn", ""); fd != nil {
